@@ -129,7 +129,7 @@ def isPatternTarget : Node → Bool
 def isSimpleTargetPart : Node → Bool
   | .ident .. => true
   | .lit .. => true
-  | .other "ThisExpression" .. => true
+  | .other "ThisExpression" _ _ [] => true   -- `ThisExpr` has no children
   | _ => false
 
 /-- `hoist_target_part`: `(t = e)` for the target, `t` for reading back -/
@@ -151,27 +151,34 @@ def isSplittableInner : Node → Bool
   | .other k _ _ _ => k == "SuperPropExpression"
   | _ => false
 
+/-- `key_is_simple` -/
+def keyIsSimple (prop : Node) : Bool :=
+  match prop with
+  | .other "Computed" _ ["expression"] [e] => isSimpleTargetPart e
+  | _ => true
+
+/-- the property of the target and of the read-back: a non-trivial computed key goes through a temporary -/
+def splitProp (prop : Node) (sp : Span) : M (Node × Node) :=
+  match prop with
+  | .other "Computed" csp ["expression"] [e] =>
+    if !isSimpleTargetPart e then splitComputedKey csp e sp
+    else pure (prop, prop)
+  | _ => pure (prop, prop)
+
 /-- `split_simple_target` (`split_member_target` wraps its first component in `AssignTarget::Simple`) -/
 def splitMemberTarget (left : Node) (sp : Span) : M (Node × Node) :=
   match left with
   | .member obj prop msp =>
-    let keySimple := match prop with
-      | .other "Computed" _ ["expression"] [e] => isSimpleTargetPart e
-      | _ => true
-    if !isSimpleTargetPart obj || !keySimple then do
+    if !isSimpleTargetPart obj || !keyIsSimple prop then do
       -- an identifier is only read again as it is when nothing runs between the two reads
-      let objRepeatable := isSimpleTargetPart obj && (keySimple || !obj.isIdent)
+      let objRepeatable := isSimpleTargetPart obj && (keyIsSimple prop || !obj.isIdent)
       let (tobj, oobj) ← if objRepeatable then pure (obj, obj) else hoistTargetPart obj sp
-      let (tprop, oprop) ← match prop with
-        | .other "Computed" csp ["expression"] [e] =>
-          if !isSimpleTargetPart e then splitComputedKey csp e sp
-          else pure (prop, prop)
-        | _ => pure (prop, prop)
+      let (tprop, oprop) ← splitProp prop sp
       pure (.member tobj tprop msp, .member oobj oprop msp)
     else pure (left, left)
-  | .other "SuperPropExpression" ssp ["obj", "property"] [sup, .other "Computed" csp ["expression"] [e]] =>
-    if !isSimpleTargetPart e then do
-      let (tk, ok) ← splitComputedKey csp e sp
+  | .other "SuperPropExpression" ssp ["obj", "property"] [sup, prop] =>
+    if !keyIsSimple prop then do
+      let (tk, ok) ← splitProp prop sp
       pure (.other "SuperPropExpression" ssp ["obj", "property"] [sup, tk],
             .other "SuperPropExpression" ssp ["obj", "property"] [sup, ok])
     else pure (left, left)
@@ -185,15 +192,18 @@ def splitMemberTarget (left : Node) (sp : Span) : M (Node × Node) :=
 /-- `to_dd_assign_expr`.  The `AssignTarget::Pat` arm re-visits the children in the Rust code; a
     compound assignment to a pattern is a syntax error, so that arm is unreachable from the parser and
     is modelled as "not modified". -/
+def assignRhs (r : Node) : Node :=
+  match r with
+  | .bin "+" _ _ _ => Node.paren r r.span
+  | _ => r
+
 def toDdAssign (cfg : Config) (e : Node) : M (Option Node) :=
   match e with
   | .assign _ left r sp =>
     if isPatternTarget left then pure none
     else do
       -- a sum on the right keeps its own grouping
-      let right := match r with
-        | .bin "+" _ _ _ => Node.paren r r.span
-        | _ => r
+      let right := assignRhs r
       let (target, operand) ← splitMemberTarget left sp
       let res ← toDdBinary cfg (.bin "+" operand right sp)
       match res with
@@ -203,13 +213,16 @@ def toDdAssign (cfg : Config) (e : Node) : M (Option Node) :=
 
 /-! ### template_transform.rs -/
 
+def tplOperand (x : Node) : Node :=
+  match x with
+  | .seq _ _ => Node.paren x x.span
+  | _ => x
+
 def replaceTplExprs : List Node → List Node → List Node → M (List Node × List Node × List Node)
   | [], asg, args => pure ([], asg, args)
   | x :: xs, asg, args => do
     -- a sequence substitution stays parenthesised
-    let x0 := match x with
-      | .seq _ _ => Node.paren x x.span
-      | _ => x
+    let x0 := tplOperand x
     let (x', asg1, args1) ← replaceExpr x0 .replace asg args x.span .expr false
     let (xs', asg2, args2) ← replaceTplExprs xs asg1 args1
     pure (x' :: xs', asg2, args2)
